@@ -42,7 +42,7 @@ func (fv *FuncVC) call(x *ssa.Call) {
 	if tr, ok := fv.tableFns[com.Value]; ok {
 		// function value obtained from a specified table: its contract is the table's
 		tb := tr.tb
-		cc := &FuncContract{Kind: "table", Pkg: tb.Pkg, Name: tb.Var + "[]", Params: append([]string{}, tb.Params...), Requires: tb.Requires, Ensures: tb.Sem, Modifies: tb.Modifies}
+		cc := &FuncContract{Kind: "table", Pkg: tb.Pkg, Name: tb.Var + "[]", Params: append([]string{}, tb.Params...), Results: tb.Results, Requires: tb.Requires, Ensures: tb.Sem, Modifies: tb.Modifies}
 		if cc.Modifies == nil {
 			cc.Modifies = []Expr{}
 		}
@@ -77,6 +77,10 @@ func (fv *FuncVC) havocCall(x *ssa.Call, mods []modEntry, all bool) *State {
 	hs := &State{kind: sHavoc, h: map[string]Term{}, parent: before, havocAll: all, havoc: map[string]bool{"alloc": true},
 		site: fmt.Sprintf("c%d_%s", fv.epochN, sanitize(x.Name())), guard: fv.cur, bound: bound, exclude: mods, fv: fv, blk: fv.curIdx()}
 	for _, m := range mods {
+		if m.low != "" {
+			hs.havocAll = true
+			continue
+		}
 		hs.havoc[m.heap] = true
 	}
 	fv.st = hs.clone()
@@ -88,6 +92,11 @@ func (fv *FuncVC) callCallback(x *ssa.Call) {
 	sig := com.Signature()
 	var args []Term
 	for _, a := range com.Args {
+		if el, ok := ptrToBasic(a.Type()); ok {
+			p := fv.val(a)
+			args = append(args, eq(p, "0"), app("ite", eq(p, "0"), fv.e.zero(el), app("select", fv.st.get(fv.e.cellHeap(el)), p)))
+			continue
+		}
 		args = append(args, fv.val(a))
 	}
 	fv.oblige("nil", "nil-func", panicProps, not(eq(fv.val(com.Value), "0")), x.Pos(), "called function value is not nil")
@@ -195,6 +204,10 @@ func (fv *FuncVC) callWithContractEnv(x *ssa.Call, cc *FuncContract, extra map[s
 		mods = append(mods, fv.modTargets(envPre, m)...)
 	}
 	for _, m := range mods {
+		if m.low != "" {
+			fv.oblige("frame@call", "frame@call:"+calleeName, frameProps, fv.writable("", m.low), x.Pos(), fmt.Sprintf("%s may write the scratch region it owns, which must be memory allocated by this call", calleeName))
+			continue
+		}
 		fv.oblige("frame@call", "frame@call:"+calleeName, frameProps, fv.writable(m.heap, m.id), x.Pos(), fmt.Sprintf("%s may write %s, which must be writable here", calleeName, m.heap))
 	}
 	if cc.Pure {
@@ -234,7 +247,13 @@ func (fv *FuncVC) callWithContractEnv(x *ssa.Call, cc *FuncContract, extra map[s
 		}
 		fv.assume(envPost.trBool(en.E))
 	}
-	if hs != nil {
+	regionMod := false
+	for _, m := range mods {
+		if m.low != "" {
+			regionMod = true
+		}
+	}
+	if hs != nil && !regionMod {
 		hs.get("alloc")
 		hs.havocAll = false
 		for name := range hs.h {
